@@ -147,8 +147,8 @@ class minimize(object):
         info = {"success": solution['success'],
                 "message": solution['message'],
                 "func": solution['fun'],
-                "grad": solution['jac'],
-                "nit": solution['nit'], 
+                "grad": solution.get('jac'),
+                "nit": solution.get('nit'), 
                 "nfev": solution['nfev']}
         if isinstance(self.x0,CUQIarray):
             sol = CUQIarray(solution['x'],geometry=self.x0.geometry)
